@@ -425,11 +425,11 @@ def rule_d5(ctx) -> None:
         ctx.finding("C08-D5", "SyntheticRuleMatcher.__init__:normalisation", init.loc(norm[0]), "the imbalance is normalised with %s; entries other than zeros can be dropped" % [unparse(c) for c in norm[0].value.generators[0].ifs])
 
 
-def rule_d7(ctx) -> None:
+def rule_d7(ctx, rule_id: str = "C08-D7") -> None:
     """A both-sided imbalance with one element and a charge is re-labelled one-sided by swapping the side it is seen
     from.  Swapping sides negates the *whole* difference vector, the charge entry included; the solver then fills exactly
     that vector.  Every return of the relabelling helper is either the vector it received or its complete negation."""
-    ctx.rule("C08-D7", "where a both-sided imbalance is re-labelled, the returned vector is the given one or its complete negation", 2)
+    ctx.rule(rule_id, "where a both-sided imbalance is re-labelled, the returned vector is the given one or its complete negation", 2)
     f = ctx.prog.func("synrbl.SynProcessor.rsmi_both_side_process.BothSideReact.reverse_values_if_negative_except_Q")
     param = [p for p in f.params if p not in ("self", "cls")][0]
     rets = [r for r in own_nodes(f.node) if isinstance(r, ast.Return) and isinstance(r.value, ast.Tuple) and len(r.value.elts) == 2]
@@ -451,9 +451,9 @@ def rule_d7(ctx) -> None:
             negates = isinstance(v.value, ast.UnaryOp) and isinstance(v.value.op, ast.USub) and isinstance(v.value.operand, ast.Name) and isinstance(v_, ast.Name) and v.value.operand.id == v_.id
             if over and keeps_key and negates:
                 kind = "complete negation"
-        ctx.instance("C08-D7", "return %s: %s" % (unparse(r.value)[:70], kind or "neither the given vector nor its complete negation"), f.loc(r), ok=kind is not None)
+        ctx.instance(rule_id, "return %s: %s" % (unparse(r.value)[:70], kind or "neither the given vector nor its complete negation"), f.loc(r), ok=kind is not None)
         if kind is None:
-            ctx.finding("C08-D7", "BothSideReact.reverse_values_if_negative_except_Q:partial-negation", f.loc(r), "the relabelled imbalance %s is neither the given vector nor its complete negation: an entry (the charge) keeps its sign when the side is swapped, so the solver fills a vector that is not the imbalance of the reaction" % unparse(v)[:70])
+            ctx.finding(rule_id, "BothSideReact.reverse_values_if_negative_except_Q:partial-negation", f.loc(r), "the relabelled imbalance %s is neither the given vector nor its complete negation: an entry (the charge) keeps its sign when the side is swapped, so the solver fills a vector that is not the imbalance of the reaction" % unparse(v)[:70])
 
 
 def rule_d8(ctx) -> None:
@@ -515,6 +515,11 @@ def check(ctx) -> None:
     # D11: ... and written back to that reaction's row: the id the rule-based stage indexes the batch with is the
     # position of the row (shared with C06-B2)
     c06.rule_b2(ctx, Pipeline(ctx), "C08-D11")
+    # D12: the imbalance the solver is asked to fill is the one computed for the row now: computed annotations are not
+    # shadowed by keys the row already carries (shared with C04-G12)
+    from . import c04
+
+    c04.rule_g12(ctx, "C08-D12")
     rule_d1(ctx)
     rule_d2(ctx)
     rule_d3(ctx)
